@@ -189,6 +189,6 @@ SanitizeAttrs(p, n, as) ==
 Forced(p, n, a) ==
   \/ a.k = "rel"    /\ AnyLinkOption(p) /\ n \in HrefEls
   \/ a.k = "target" /\ p.targetBlank /\ n = "a" /\ a.v = "_blank"
-  \/ a.k = "crossorigin" /\ p.crossorigin /\ n \in CrossEls /\ a.v = "anonymous"
+  \/ a.k = "crossorigin" /\ p.crossorigin /\ n \in CrossEls
   \/ a.k = "sandbox" /\ p.sandboxOn /\ n = "iframe"
 =============================================================================
